@@ -12,6 +12,7 @@ import Depccg.Read.Deriv
 import Depccg.Read.Prolog
 import Depccg.Read.Conll
 import Depccg.Read.ConllDoc
+import Depccg.Read.LineDoc
 import Depccg.Read.Json
 import Depccg.Read.XmlText
 
@@ -149,6 +150,12 @@ def dispatch (op : String) (ts : List String) : Option String :=
             " ## " ++ toString n ++ " " ++ encStr sc ++ " " ++ toString rows.length ++ String.join (rows.map fun r =>
               " || " ++ toString r.id ++ " " ++ encStr r.word ++ " " ++ encStr r.lemma ++ " " ++ encStr r.pos ++ " " ++ encStr r.pos2
                 ++ " " ++ toString r.head ++ " " ++ encStr r.cat))
+        | none => "none")
+      | _ => "bad-op")
+  | "line_doc" => some (match pStr ts with
+      | some (s, []) => (match Read.decLineDoc s with
+        | some recs => "ok " ++ toString recs.length ++ String.join (recs.map fun (n, sc, line) =>
+            " ## " ++ toString n ++ " " ++ encStr sc ++ " " ++ encStr line)
         | none => "none")
       | _ => "bad-op")
   | "prolog_dec" => some (match pStr ts with
